@@ -246,11 +246,24 @@ def c19_5(ctx):
     # headers message: the transaction count after each header must be zero
     mod, fn = rl.get(ctx, "network:HeadersMessage.parse")
     cfg = cfg_of(fn)
-    z = [n for n in cfg.tests() if isinstance(n.ast, ast.Compare) and "num_txs" in ast.unparse(n.ast)]
+    # the comparison of the varint read inside the loop (whatever the local is called, or none at all) with zero
+    z = []
+    for n in cfg.tests():
+        if n.loops and isinstance(n.ast, ast.Compare) and len(n.ast.ops) == 1 and isinstance(n.ast.ops[0], (ast.Eq, ast.NotEq)):
+            oo = origins(fn, n.id, n.ast)
+            zero = any(isinstance(x, ast.Constant) and x.value == 0 for x in (n.ast.left, n.ast.comparators[0]))
+            if "call:read_varint" in oo and zero:
+                z.append(n)
+    reads_in_loop = [n for n, c in rl.find_calls(fn, "read_varint") if n.loops]
     if z and all(cfg.nodes[s].kind == "raise" for s, l in cfg.succ[z[0].id] if l == isinstance(z[0].ast.ops[0], ast.NotEq)):
         out.append(ctx.ok("network:HeadersMessage.parse", "a non-zero transaction count after a header raises", z[0].ast, mod, key="headers-txcount"))
+    elif z:
+        out.append(ctx.bad("network:HeadersMessage.parse", "`%s` does not raise for a non-zero transaction count" % ast.unparse(z[0].ast), z[0].ast, mod, key="headers-txcount"))
+    elif reads_in_loop and all(isinstance(n.ast, ast.Expr) for n in reads_in_loop):
+        out.append(ctx.bad("network:HeadersMessage.parse", "the transaction count after each header is read and thrown away: a non-zero count is not rejected", reads_in_loop[0].ast, mod,
+                           key="headers-txcount"))
     else:
-        out.append(ctx.bad("network:HeadersMessage.parse", "non-zero transaction count after a header is not rejected", fn, mod, key="headers-txcount"))
+        out.append(ctx.err("network:HeadersMessage.parse", "how the transaction count after a header is checked was not recognised", fn, mod))
     return out
 
 
